@@ -19,6 +19,8 @@
 //	       (environment and $OUT expanded on the command line)
 //	subst  parameters that use $C11VAR: the run sees its value; the recorded string must hold the values the run
 //	       saw - the re-load happens in a process where the variable has another value
+//	restart the real `start -p` command on a DAG that is still running (a sleeping step), then the real `restart`
+//	       command in another process whose environment has changed: the restarted run must see the first run's values
 //	cli    the real `start -p` command (cmd.Execute) with the parameter string wrapped in quotes as the API client
 //	       does (client.go: fmt.Sprintf(`"%s"`, ...)); start.go strips exactly that pair
 package main
@@ -197,6 +199,7 @@ type Job struct {
 	Status string   `json:"status_file,omitempty"`
 	Env    []string `json:"env,omitempty"`   // extra environment of the worker
 	Extra  []string `json:"extra,omitempty"` // further variable names the envdump children report
+	Sleep  bool     `json:"sleep,omitempty"` // the DAG ends with a step that sleeps (so that it can be restarted)
 }
 
 type JobResult struct {
@@ -244,6 +247,8 @@ func schedule(d *dag.DAG, g *scheduler.ExecutionGraph, dir string) (*scheduler.S
 	return sc, sc.Status(g).String()
 }
 
+var sleepStep bool
+
 func envDag(dir string, names []string, npos int, extra ...string) string {
 	me := self()
 	var all []string
@@ -263,6 +268,9 @@ func envDag(dir string, names []string, npos int, extra ...string) string {
 		"  - name: s1\n    command: " + me + " envdump " + filepath.Join(dir, "p-env.json") + " " + strings.Join(all, " ") + "\n" +
 		"  - name: s2\n    command: " + me + " argdump " + filepath.Join(dir, "p-arg.json") + " " + strings.Join(dollars, " ") + "\n    depends:\n      - s1\n" +
 		"handlerOn:\n  exit:\n    command: " + me + " envdump " + filepath.Join(dir, "p-handler.json") + " " + strings.Join(all, " ") + "\n"
+	if sleepStep {
+		y = strings.Replace(y, "handlerOn:", "  - name: s3\n    command: sleep 1\n    depends:\n      - s2\nhandlerOn:", 1)
+	}
 	f := filepath.Join(dir, "c11env.yaml")
 	if err := os.WriteFile(f, []byte(y), 0644); err != nil {
 		panic(err)
@@ -303,8 +311,19 @@ func workerMain() {
 		os.Stdout.Write(b)
 	}
 	switch j.Mode {
+	case "restart":
+		// the real command line entry point: blackdagger restart file (stops the running DAG, starts it again with
+		// the parameters of the latest status)
+		os.Setenv("HOME", j.Dir)
+		os.Setenv("BLACKDAGGER_HOME", filepath.Join(j.Dir, ".blackdagger"))
+		os.Args = []string{"blackdagger", "restart", "-q", filepath.Join(j.Dir, "c11env.yaml")}
+		devnull, _ := os.OpenFile(os.DevNull, os.O_WRONLY, 0)
+		os.Stdout, os.Stderr = devnull, devnull
+		_ = bdcmd.Execute()
+		os.Exit(0)
 	case "cli":
 		// the real command line entry point: blackdagger start -p "<params>" file
+		sleepStep = j.Sleep
 		f := envDag(j.Dir, j.Names, j.NPos, j.Extra...)
 		os.Setenv("HOME", j.Dir)
 		os.Setenv("BLACKDAGGER_HOME", filepath.Join(j.Dir, ".blackdagger"))
@@ -599,6 +618,41 @@ func execCase(c *Case, base string) {
 			for k, v := range r2.Probes {
 				c.Probes["re-"+k] = v
 			}
+		}
+	case "restart":
+		c.S = render(c.Items)
+		dir, err := os.MkdirTemp(base, "r")
+		if err != nil {
+			panic(err)
+		}
+		defer os.RemoveAll(dir)
+		names, npos := namesOf(c.Items)
+		c.Probes = map[string]*Probe{}
+		first := make(chan bool, 1)
+		go func() {
+			_, h := runJob(Job{Mode: "cli", Dir: dir, Params: `"` + c.S + `"`, Names: names, NPos: npos, Sleep: true,
+				Env: []string{"C11VAR=alpha"}, Extra: posEqNames(c.Items)}, 30*time.Second)
+			first <- h
+		}()
+		// the first run has shown what it sees once its second step has left its probe; it then sleeps
+		for i := 0; i < 100; i++ {
+			if _, err := os.Stat(filepath.Join(dir, "p-arg.json")); err == nil {
+				break
+			}
+			time.Sleep(50 * time.Millisecond)
+		}
+		time.Sleep(300 * time.Millisecond) // the agent records its first status 100 ms after the start
+		for _, n := range []string{"env", "arg"} {
+			c.Probes[n] = readProbe(filepath.Join(dir, "p-"+n+".json"))
+			os.Remove(filepath.Join(dir, "p-"+n+".json"))
+		}
+		_, hang := runJob(Job{Mode: "restart", Dir: dir, Env: []string{"C11VAR=beta"}}, 30*time.Second)
+		c.Hang = hang
+		if <-first {
+			c.Hang = true
+		}
+		for _, n := range []string{"env", "arg"} {
+			c.Probes["re-"+n] = readProbe(filepath.Join(dir, "p-"+n+".json"))
 		}
 	case "cli":
 		c.S = render(c.Items)
@@ -963,6 +1017,24 @@ func main() {
 			if noBacktick(its) {
 				add(&Case{Stream: "subst", Gen: "random", Items: its})
 			}
+		}
+		// restart of a running DAG
+		restartFixed := [][]Item{
+			{{Kind: "q", Value: "a b"}, {Kind: "w", Value: "c"}, {Kind: "nq", Name: "N", Value: "p q"}},
+			{{Kind: "nw", Name: "TARGET", Value: "${C11VAR}"}, {Kind: "q", Value: "x ${C11VAR} y"}},
+			{{Kind: "q", Value: ""}, {Kind: "w", Value: "$C11VAR"}, {Kind: "q", Value: "say \"hi\""}},
+			{{Kind: "q", Value: "k=v w"}, {Kind: "nq", Name: "E", Value: ""}},
+		}
+		for _, it := range restartFixed {
+			add(&Case{Stream: "restart", Gen: "fixed", Items: it})
+		}
+		for i := pick(2, 60); i > 0; {
+			it := genItems(rng, true, 3)
+			if !noSubst(it) || strings.ContainsAny(render(it), "\n\r") {
+				continue
+			}
+			add(&Case{Stream: "restart", Gen: "random", Items: it})
+			i--
 		}
 		// the command line entry point with the API client's wrapping
 		cliFixed := [][]Item{
